@@ -5,6 +5,11 @@ HERE = os.path.dirname(os.path.dirname(os.path.abspath(__file__)))
 
 CLAIMED = {
  # id: (level, technique, text, note, design_ref)
+ "C09": ("exploration",
+         "deterministic simulation at the storage seam: reference-model comparison of the real block repository over seeded operation sequences with both delete-missing semantics and injected per-operation disk errors; exhaustive revert-boundary sweep",
+         "After every operation of every explored add/revert/save/load/query sequence the real BlockRepository (and Node.GetHeaders) answers exactly like a slice-of-headers model; a revert that fails through an injected disk error leaves all answers unchanged; all revert targets within 2 of each 1000-header boundary and of the tip are enumerated for store sizes around the boundaries, saved and unsaved, under both back-end behaviours.",
+         "Sampling beyond the enumerated sweep; the storage back end is the simulated disk (individual operations atomic).",
+         "6 C09"),
  "C13": ("exploration",
          "deterministic simulation: reference-model comparison of the real request queue over seeded and bounded-exhaustive operation sequences (component engine); wire-level window oracle in whole-node simulated runs",
          "Every operation sequence explored leaves the real state.State request queue equal to a reference queue model written from the statement (order, window of ten, byte pause, unrequested ignored, clear-after, byte counter zero when nothing buffered); all sequences up to a bounded depth are enumerated, longer ones are seeded.",
